@@ -16,7 +16,9 @@
 //	              data[seqoff-1 : seqoff-1+len], flags ⊆ "SAFP" or `-`; an optional 7th field says that the
 //	              record was cut by the snap length (incl_len < orig_len): `x<k>` = only the first k bytes of
 //	              the IP packet are in the file, `xL` = the cut is inside the link header
-//	          F:<conn>:<a|b>:<ipid>:<fragoff>:<mf>:<hex>   an IPv4 fragment (IP payload bytes literal)
+//	          F:<conn>:<a|b>:<ipid>:<fragoff>:<mf>:<hex>[:p<proto>]   an IPv4 fragment (IP payload bytes literal) sent from
+//	              that endpoint's address to the other's; IP protocol 6 unless given (a datagram of another protocol
+//	              belongs to no connection)
 //	N / N=<links>   (pcapng) a new section starts here, with the interfaces of the first section / with these
 package main
 
@@ -88,10 +90,18 @@ type pkt struct {
 	flags int
 	cut   int // T: snaplen truncation: cutNone, cutLink (inside the link header) or the number of bytes of the IP packet that are captured
 	// F:
-	ipid uint16
-	foff int
-	mf   bool
-	body []byte
+	ipid  uint16
+	foff  int
+	mf    bool
+	body  []byte
+	proto int // IP protocol number of the fragment (0 = 6, TCP)
+}
+
+func (p pkt) protoOr6() int {
+	if p.proto == 0 {
+		return 6
+	}
+	return p.proto
 }
 
 const (
@@ -224,7 +234,11 @@ func (p pkt) String() string {
 		if p.mf {
 			mf = 1
 		}
-		return fmt.Sprintf("F:%d:%s:%d:%d:%d:%s", p.conn, d, p.ipid, p.foff, mf, hlib.Hex(p.body))
+		pr := ""
+		if p.protoOr6() != 6 {
+			pr = fmt.Sprintf(":p%d", p.proto)
+		}
+		return fmt.Sprintf("F:%d:%s:%d:%d:%d:%s%s", p.conn, d, p.ipid, p.foff, mf, hlib.Hex(p.body), pr)
 	}
 	return fmt.Sprintf("T:%d:%s:%d:%d:%s%s", p.conn, d, p.so, p.n, flagStr(p.flags), p.cutStr())
 }
@@ -393,7 +407,19 @@ func parseKase(op string) (*kase, error) {
 				return nil, fmt.Errorf("pkt %q outside the sent data", w)
 			}
 			p.so, p.n, p.flags = so, n, fl
-		case f[0] == "F" && len(f) == 7:
+		case f[0] == "F" && (len(f) == 7 || len(f) == 8):
+			if len(f) == 8 {
+				if !strings.HasPrefix(f[7], "p") {
+					return nil, fmt.Errorf("pkt %q", w)
+				}
+				v, err := strconv.Atoi(f[7][1:])
+				if err != nil || v < 0 || v > 255 {
+					return nil, fmt.Errorf("pkt %q", w)
+				}
+				p.proto = v
+			} else {
+				p.proto = 6
+			}
 			id, e1 := strconv.ParseUint(f[3], 10, 16)
 			fo, e2 := strconv.Atoi(f[4])
 			if e1 != nil || e2 != nil || fo < 0 || fo%8 != 0 || (f[5] != "0" && f[5] != "1") {
@@ -447,13 +473,13 @@ func (k *kase) frames() (frames [][]byte, ifaces []int, flinks []string, origLen
 		c := k.conns[p.conn]
 		var ip []byte
 		if p.frag {
-			ip = ipv4Packet(c.ip[p.dir], c.ip[1-p.dir], p.ipid, p.foff, p.mf, p.body)
+			ip = ipv4Packet(c.ip[p.dir], c.ip[1-p.dir], byte(p.protoOr6()), p.ipid, p.foff, p.mf, p.body)
 		} else {
 			// identification of unfragmented packets: distinct from the generator's fragment ids (< 0x8000)
 			if c.v6() {
 				ip = ipv6Packet(c.ip[p.dir], c.ip[1-p.dir], k.segmentBytes(p))
 			} else {
-				ip = ipv4Packet(c.ip[p.dir], c.ip[1-p.dir], uint16(0x8000+i%0x8000), 0, false, k.segmentBytes(p))
+				ip = ipv4Packet(c.ip[p.dir], c.ip[1-p.dir], 6, uint16(0x8000+i%0x8000), 0, false, k.segmentBytes(p))
 			}
 		}
 		ls := k.linksOf(secIdx[i])
